@@ -268,6 +268,12 @@ func (v *FV) execLock(fr *Frame, st *State, cc *ssa.CallCommon, kind string, pos
 	if kind == "lock" || kind == "rlock" {
 		v.countSection(fr, st, ld, owner)
 	}
+	if (kind == "lock" || kind == "rlock") && len(ld.Serializes) > 0 && v.quiet == 0 {
+		if v.serialAcq == nil {
+			v.serialAcq = map[string]string{}
+		}
+		v.serialAcq[hk] = pos
+	}
 	switch kind {
 	case "lock":
 		st.held[hk] = "w"
@@ -701,6 +707,10 @@ func (v *FV) doCall(fr *Frame, st *State, cc *ssa.CallCommon, recvTV TV, args []
 		v.wr(st.snap, "CLOCK", "0", v.iadd(v.rd(st.snap, "CLOCK", "0"), v.idxLit(1)))
 	}
 	before := v.sharedInterference(fr, st, pos)
+	var fvKey Term // the function value called (evaluated before the call: the call may change the variable)
+	if !cc.IsInvoke() && isFuncValueCall(cc) && v.quiet == 0 {
+		fvKey = v.val(fr, cc.Value).T
+	}
 	res := v.doCall2(fr, st, cc, recvTV, args, pos)
 	if cc.IsInvoke() && v.quiet == 0 {
 		// ghost trace of interface method invocations: calls(x.M) counts them per receiver
@@ -711,6 +721,18 @@ func (v *FV) doCall(fr *Frame, st *State, cc *ssa.CallCommon, recvTV TV, args []
 		v.regArray("CALLS", fmt.Sprintf("(Array Int %s)", v.idx()))
 		k := v.methodKey(rv.T, cc.Method.Name())
 		v.wr(st.snap, "CALLS", k, v.iadd(v.rd(st.snap, "CALLS", k), v.idxLit(1)))
+		fvKey = k
+	}
+	if fvKey != "" {
+		// calledat(f): logical time of the last invocation; lasterrnil(f): its last result (an error) was nil
+		if v.useClock {
+			v.regArray("STAMP", fmt.Sprintf("(Array Int %s)", v.idx()))
+			v.wr(st.snap, "STAMP", fvKey, v.rd(st.snap, "CLOCK", "0"))
+		}
+		if n := len(res); n > 0 && res[n-1].Sort == "Int" && isErrorType(res[n-1].Ty) {
+			v.regArray("RESNIL", "(Array Int Bool)")
+			v.wr(st.snap, "RESNIL", fvKey, fmt.Sprintf("(= %s 0)", res[n-1].T))
+		}
 	}
 	v.sharedAfterStep(fr, st, before, pos, v.calleeName(cc, nil))
 	return res
@@ -741,7 +763,9 @@ func (v *FV) doCall2(fr *Frame, st *State, cc *ssa.CallCommon, recvTV TV, args [
 				}
 			}
 		}
-		if _, isParam := cc.Value.(*ssa.Parameter); isParam && callee == nil && !cc.IsInvoke() {
+		if callee == nil && !cc.IsInvoke() && isFuncValueCall(cc) {
+			// a function value with a declared contract (callback parameter, package-level function
+			// variable, function-typed field): count the call in the ghost trace
 			v.bumpCalls(st, v.val(fr, cc.Value).T, args)
 		}
 		return v.applyContract(fr, st, con, callee, cc, recvTV, args, pos)
@@ -1227,6 +1251,33 @@ func (v *FV) appendOp(fr *Frame, st *State, in ssa.Value, cc *ssa.CallCommon, po
 		fail("append of %s", e.Sort)
 	}
 	v.wr(st.snap, arr, ref, contents)
+	if e.Sort == "Slice" && storeBackIdiom(in, cc) {
+		v.trusted["x.f = append(x.f, ...): the spare capacity behind a slice held in a variable or field is taken to belong to that slice (no other live slice over the same array extends beyond its length), so the in-place write is invisible; modelled as a copy"] = true
+	} else if e.Sort == "Slice" && !localSlice(cc.Args[0], map[ssa.Value]bool{}) {
+		// The appended-to slice may come from outside this function (a parameter, a heap field, a re-slice
+		// of one): if it has spare capacity Go appends IN PLACE, i.e. it writes into the existing backing
+		// array behind the slice's length - visible through every other slice over that array (s[:0] idiom).
+		// The result value is still modelled as a copy; the write into the old array is modelled here, so
+		// frame conditions and aliases over the old array see it.
+		sref := v.arrOf(s.T)
+		soff := fmt.Sprintf("(sl_off %s)", s.T)
+		scap := fmt.Sprintf("(sl_cap %s)", s.T)
+		elen := fmt.Sprintf("(sl_len %s)", e.T)
+		old := v.rd(pre, arr, sref)
+		cin := v.declare(fr.prefix+in.Name()+"_ip", fmt.Sprintf("(Array %s %s)", v.idx(), es))
+		lo := v.iadd(soff, slen)
+		hi := v.iadd(lo, elen)
+		v.emit(fmt.Sprintf("(assert (forall ((j %s)) (! (=> (not (and (%s %s j) (%s j %s))) (= (select %s j) (select %s j))) :pattern ((select %s j)))))",
+			v.idx(), le, lo, lt, hi, cin, old, cin))
+		v.emit(fmt.Sprintf("(assert (forall ((i %s)) (! (=> (and (%s %s i) (%s i %s)) (= (select %s %s) %s)) :pattern ((select %s %s)))))",
+			v.idx(), le, z, lt, elen, cin, v.iadd(lo, "i"), v.sliceElemAt(pre, arr, es, e.T, "i"), cin, v.iadd(lo, "i")))
+		v.emit(fmt.Sprintf("(assert (=> (= %s %s) (= (select %s %s) %s)))", elen, v.idxLit(1), cin, lo, v.sliceElemAt(pre, arr, es, e.T, v.idxLit(0))))
+		inplace := fmt.Sprintf("(and (not (= %s 0)) (%s %s %s))", sref, lt, slen, scap)
+		v.wr(st.snap, arr, sref, fmt.Sprintf("(ite %s %s %s)", inplace, cin, old))
+		v.trusted["append to a slice that may come from outside the function: the in-place write into spare capacity of the old backing array is modelled; the result value is modelled as a copy (later writes through the result do not reach the old array)"] = true
+	} else {
+		v.trusted["append to slices built inside the function (nil / make / append / slice literal): always modelled as a copy; aliasing between two local slices over one array is not modelled"] = true
+	}
 	nl := v.define(fr.prefix+in.Name()+"_len", v.idx(), newLen)
 	capT := v.declare(fr.prefix+in.Name()+"_cap", v.idx())
 	v.assume(st.reach, fmt.Sprintf("(%s %s %s)", le, nl, capT))
@@ -1235,6 +1286,191 @@ func (v *FV) appendOp(fr *Frame, st *State, in ssa.Value, cc *ssa.CallCommon, po
 		v.assume(st.reach, fmt.Sprintf("(%s %s %s)", le, slen, nl))
 	}
 	v.setVal(fr, in, fmt.Sprintf("(mk_slice %s %s %s %s)", ref, z, nl, capT))
+}
+
+// storeBackIdiom: x.f = append(x.f, ...) - the appended-to slice is loaded from an address and the result
+// is stored back to that same address.
+// sameLoad: the same SSA value, or two loads of the same variable / field address
+func sameLoad(a, b ssa.Value) bool {
+	if a == b {
+		return true
+	}
+	ua, ok1 := a.(*ssa.UnOp)
+	ub, ok2 := b.(*ssa.UnOp)
+	if !ok1 || !ok2 || ua.Op != token.MUL || ub.Op != token.MUL {
+		return false
+	}
+	if ua.X == ub.X {
+		return true
+	}
+	fa, ok1 := ua.X.(*ssa.FieldAddr)
+	fb, ok2 := ub.X.(*ssa.FieldAddr)
+	return ok1 && ok2 && fa.X == fb.X && fa.Field == fb.Field
+}
+
+func storeBackIdiom(in ssa.Value, cc *ssa.CallCommon) bool {
+	if lk, ok := cc.Args[0].(*ssa.Lookup); ok && in.Referrers() != nil {
+		// m[k] = append(m[k], ...)
+		for _, r := range *in.Referrers() {
+			if mu, ok := r.(*ssa.MapUpdate); ok && mu.Value == in && sameLoad(mu.Map, lk.X) && mu.Key == lk.Index {
+				return true
+			}
+		}
+		return false
+	}
+	ld, ok := cc.Args[0].(*ssa.UnOp)
+	if !ok || ld.Op != token.MUL || in.Referrers() == nil {
+		return false
+	}
+	same := func(a, b ssa.Value) bool {
+		if a == b {
+			return true
+		}
+		fa, ok1 := a.(*ssa.FieldAddr)
+		fb, ok2 := b.(*ssa.FieldAddr)
+		return ok1 && ok2 && fa.X == fb.X && fa.Field == fb.Field
+	}
+	stored := false
+	for _, r := range *in.Referrers() {
+		if s, ok := r.(*ssa.Store); ok && s.Val == in && same(s.Addr, ld.X) {
+			stored = true
+		}
+	}
+	if !stored {
+		return false
+	}
+	// every other value this function puts into that variable / field must be built locally: a re-slice of a
+	// foreign slice (s[:0]) stored there first would make the in-place write visible through the foreign slice
+	okVal := func(val ssa.Value) bool {
+		if c, ok := val.(*ssa.Call); ok {
+			if b, ok := c.Call.Value.(*ssa.Builtin); ok && b.Name() == "append" {
+				if l2, ok := c.Call.Args[0].(*ssa.UnOp); ok && l2.Op == token.MUL && same(l2.X, ld.X) {
+					return true
+				}
+			}
+		}
+		return localSlice(val, map[ssa.Value]bool{})
+	}
+	var addrs []ssa.Value
+	if fa, ok := ld.X.(*ssa.FieldAddr); ok {
+		if al, ok := fa.X.(*ssa.Alloc); ok && al.Referrers() != nil {
+			for _, r := range *al.Referrers() {
+				if s, ok := r.(*ssa.Store); ok && s.Addr == al {
+					return false // whole-struct store into the local struct: the field may hold a foreign slice
+				}
+			}
+		}
+		if fa.X.Referrers() != nil {
+			for _, r := range *fa.X.Referrers() {
+				if f2, ok := r.(*ssa.FieldAddr); ok && f2.Field == fa.Field {
+					addrs = append(addrs, f2)
+				}
+			}
+		}
+	} else {
+		addrs = append(addrs, ld.X)
+	}
+	for _, a := range addrs {
+		if a.Referrers() == nil {
+			continue
+		}
+		for _, r := range *a.Referrers() {
+			if s, ok := r.(*ssa.Store); ok && s.Addr == a && !okVal(s.Val) {
+				return false
+			}
+		}
+	}
+	return true
+}
+
+// localSlice: the slice value is built inside the function under verification (nil, make, slice literal,
+// append to such a value, a re-slice of one, a phi of such values, or a load from a non-escaping local
+// variable / local struct field that only ever holds such values): its backing array, if any, was
+// allocated by this function, so in-place appends to it cannot touch pre-existing memory.
+func localSlice(x ssa.Value, seen map[ssa.Value]bool) bool {
+	if seen[x] {
+		return true
+	}
+	seen[x] = true
+	switch x := x.(type) {
+	case *ssa.Const:
+		return x.IsNil()
+	case *ssa.MakeSlice:
+		return true
+	case *ssa.Call:
+		if b, ok := x.Call.Value.(*ssa.Builtin); ok && b.Name() == "append" {
+			return localSlice(x.Call.Args[0], seen)
+		}
+		return false
+	case *ssa.Slice:
+		if a, ok := x.X.(*ssa.Alloc); ok {
+			_, isArr := a.Type().Underlying().(*types.Pointer).Elem().Underlying().(*types.Array)
+			return isArr
+		}
+		if _, ok := x.X.Type().Underlying().(*types.Slice); ok {
+			return localSlice(x.X, seen)
+		}
+		return false
+	case *ssa.Phi:
+		for _, e := range x.Edges {
+			if !localSlice(e, seen) {
+				return false
+			}
+		}
+		return true
+	case *ssa.UnOp:
+		if x.Op != token.MUL {
+			return false
+		}
+		switch a := x.X.(type) {
+		case *ssa.Alloc:
+			// a local slice variable living in a cell
+			refs := a.Referrers()
+			if refs == nil || !cellIsPrivate(a) {
+				return false
+			}
+			for _, r := range *refs {
+				if s, ok := r.(*ssa.Store); ok && s.Addr == a && !localSlice(s.Val, seen) {
+					return false
+				}
+			}
+			return true
+		case *ssa.FieldAddr:
+			al, ok := a.X.(*ssa.Alloc)
+			if !ok || al.Referrers() == nil {
+				return false
+			}
+			for _, r := range *al.Referrers() {
+				switch r := r.(type) {
+				case *ssa.DebugRef:
+				case *ssa.UnOp: // whole-struct read: copies the header, no new provenance
+				case *ssa.FieldAddr:
+					if r.Referrers() == nil {
+						return false
+					}
+					for _, fr := range *r.Referrers() {
+						switch fr := fr.(type) {
+						case *ssa.DebugRef, *ssa.UnOp:
+						case *ssa.Store:
+							if fr.Addr != r {
+								return false // the field address escapes
+							}
+							if r.Field == a.Field && !localSlice(fr.Val, seen) {
+								return false
+							}
+						default:
+							return false
+						}
+					}
+				default:
+					return false // whole-struct store, escape, call ...
+				}
+			}
+			return true
+		}
+		return false
+	}
+	return false
 }
 
 func (v *FV) copyOp(fr *Frame, st *State, in ssa.Value, cc *ssa.CallCommon, pos string) {
@@ -1380,6 +1616,15 @@ func (v *FV) countSection(fr *Frame, st *State, ld *LockDecl, owner Term) {
 		for _, s := range other.Serializes {
 			if s == ld.Field {
 				if _, held := st.held[other.Owner+"."+other.Field+"@"+owner]; held {
+					// all sections entered during ONE acquisition of the serializing lock form one atomic
+					// step; that step counts once (sections outside it are further steps)
+					if v.serialGroups == nil {
+						v.serialGroups = map[string]map[string]bool{}
+					}
+					if v.serialGroups[ld.Field] == nil {
+						v.serialGroups[ld.Field] = map[string]bool{}
+					}
+					v.serialGroups[ld.Field][other.Field+"@"+v.serialAcq[other.Owner+"."+other.Field+"@"+owner]] = true
 					return
 				}
 			}
@@ -1503,6 +1748,29 @@ func (v *FV) sharedAfterStep(fr *Frame, st *State, before *Snapshot, pos, what s
 			v.oblige("guar", "", pos, "the step "+shortKey(what)+" respects what other threads rely on: "+sd.Rely, st.reach, t)
 		}
 	}
+}
+
+func isErrorType(t types.Type) bool {
+	if t == nil {
+		return false
+	}
+	n, ok := types.Unalias(t).(*types.Named)
+	return ok && n.Obj().Pkg() == nil && n.Obj().Name() == "error"
+}
+
+// isFuncValueCall: the call goes through a function value that contracts can name: a parameter, or a
+// load of a package-level function variable or of a function-typed field.
+func isFuncValueCall(cc *ssa.CallCommon) bool {
+	switch f := cc.Value.(type) {
+	case *ssa.Parameter:
+		return true
+	case *ssa.UnOp:
+		switch f.X.(type) {
+		case *ssa.Global, *ssa.FieldAddr:
+			return true
+		}
+	}
+	return false
 }
 
 // bumpCalls: ghost call trace of function values: CALLS[f] counts invocations, ARGNN[f]
